@@ -97,6 +97,19 @@ CONFIGS = {c["name"]: c for c in [
     _cfg("W", _mk("W", {(0x0620, 0x07): b"\x00", (0x0620, 0x04): b"\x00\x00", (0x0620, 0x03): b"OnlyDev",
                         (0x0620, 0x20): b"\x01"}),
          False, True, True, None, 0),
+    # --- twins: the same project settings (same Configuration comment) with other device settings / bus flag, so that
+    #     a derivation after its twin must still replace or drop DeviceSettings and RequiresBusAddress; project and
+    #     device versions differ, the update block carries the project one ---
+    _cfg("A2", _mk("A2", {(0x0202, 0x82): CODE_A, (0x0620, 0x01): (10234).to_bytes(4, "big"),
+                          (0x0620, 0x05): (5678).to_bytes(2, "big"), (0x0620, 0x02): (6789).to_bytes(2, "big"),
+                          (0x0620, 0x07): b"\x09", (0x0620, 0x06): b"Testname", (0x0620, 0x04): b"\x03",
+                          (0x0620, 0x03): b"DevA2", (0x0620, 0x20): b"\x01"}),
+         True, True, True, CODE_A, 9),
+    _cfg("D2", _mk("D2", {(0x0202, 0x82): CODE_D, (0x0620, 0x07): b"\x07", (0x0620, 0x06): b"Solo",
+                          (0x0620, 0x04): b"\x06", (0x0620, 0x03): b"DevD2"}),
+         True, True, False, CODE_D, 7),
+    # the empty configuration: a component holding only the terminator
+    dict(_cfg("Z", {}, False, False, False, None, None), marker=b""),
     # --- correspondence only ---
     _cfg("G", _mk("G", {(0x0620, 0x20): b"\x00", (0x0620, 0x07): b"\x01", (0x0620, 0x06): b"Z"}),
          True, False, True, None, 1, strict=False),          # b"\x00" is a non-empty (truthy) value today
@@ -363,6 +376,8 @@ class Tracker:
             if not padded(ref, bytes(c.blob)):
                 out.append("configuration blob is not the encoding of the most recent configuration")
             for name, other in CONFIGS.items():
+                if not other["marker"]:
+                    continue
                 if (other["marker"] in c.blob) != (name == self.cfg[0]):
                     out.append("configuration blob %s the value of configuration %s"
                                % ("lacks" if name == self.cfg[0] else "contains", name))
